@@ -1,6 +1,8 @@
 (* C09 - Every API call succeeds or fails exactly as its contract says. *)
 From Coq Require Import List NArith Bool Arith Lia.
 From CC Require Import Policy Structure Keys KeysMachine KInv1 KInv2.
+From CC Require Import DisabledProofs KInv1 KInv2 KInv3 KInv4 KInv4b KInv5 KInv6 KInv7 KInv8 KInv9 KInv10.
+From CC Require KeysTheorems.
 Import ListNotations.
 
 (* Refreshing an issued user key succeeds with either flag in every reachable state, whatever was rekeyed, pruned or
@@ -46,3 +48,59 @@ Print Assumptions C09_add_attribute_ok_iff.
 Theorem C09_error_is_a_no_op : forall s o, snd (step fixed s o) = ObErr -> fst (step fixed s o) = s.
 Proof. exact failed_step_unchanged_any. Qed.
 Print Assumptions C09_error_is_a_no_op.
+
+(* ---- over all reachable states of the key-management state machine (KInv*.v, gathered in KeysTheorems.v) ---- *)
+Theorem C09_refresh_ok_iff_reach :
+  forall (s : state) (k : nat) (keep : bool),
+       reach s -> snd (step fixed s (ORefresh k keep)) = ObOk <-> k < length (st_usks s).
+Proof. exact (@KeysTheorems.C09_refresh_ok_iff). Qed.
+Print Assumptions C09_refresh_ok_iff_reach.
+
+Theorem C09_update_ok_iff_reach :
+  forall s : state, reach s -> snd (step fixed s OUpdate) = ObOk <-> update_ok_b (st_msk s) = true.
+Proof. exact (@KeysTheorems.C09_update_ok_iff). Qed.
+Print Assumptions C09_update_ok_iff_reach.
+
+Theorem C09_update_err_iff_reach :
+  forall s : state,
+       reach s ->
+       snd (step fixed s OUpdate) = ObErr <->
+       (exists (r : rightk) (h : bool),
+          In (r, (h, false)) (omega_map (m_st (st_msk s))) /\ rmem r (m_secrets (st_msk s)) = false).
+Proof. exact (@KeysTheorems.C09_update_err_iff). Qed.
+Print Assumptions C09_update_err_iff_reach.
+
+Theorem C09_rekey_ok_iff_reach :
+  forall (s : state) (p : str),
+       snd (step fixed s (ORekey p)) = ObOk <->
+       (exists rs : list rightk,
+          usk_rights fixed (m_st (st_msk s)) p = ROk rs /\ rights_known (st_msk s) rs = true).
+Proof. exact (@KeysTheorems.C09_rekey_ok_iff). Qed.
+Print Assumptions C09_rekey_ok_iff_reach.
+
+Theorem C09_prune_ok_iff_reach :
+  forall (s : state) (p : str),
+       snd (step fixed s (OPrune p)) = ObOk <->
+       (exists rs : list rightk, usk_rights fixed (m_st (st_msk s)) p = ROk rs).
+Proof. exact (@KeysTheorems.C09_prune_ok_iff). Qed.
+Print Assumptions C09_prune_ok_iff_reach.
+
+Theorem C09_keygen_ok_iff_reach :
+  forall (s : state) (p : str),
+       reach s ->
+       snd (step fixed s (OKeygen p)) = ObOk <->
+       (exists rs : list rightk,
+          usk_rights fixed (m_st (st_msk s)) p = ROk rs /\ rights_known (st_msk s) rs = true).
+Proof. exact (@KeysTheorems.C09_keygen_ok_iff). Qed.
+Print Assumptions C09_keygen_ok_iff_reach.
+
+Theorem C09_encaps_ok_iff_reach :
+  forall (s : state) (j : nat) (p : str),
+       snd (step fixed s (OEncaps j p)) = ObOk <->
+       (exists (pk : mpk) (rs : list rightk),
+          nth_error (st_mpks s) j = Some pk /\
+          enc_rights fixed (p_st pk) p = ROk rs /\ forallb (fun r : rightk => rmem r (p_keys pk)) rs = true).
+Proof. exact (@KeysTheorems.C09_encaps_ok_iff). Qed.
+Print Assumptions C09_encaps_ok_iff_reach.
+
+
